@@ -269,8 +269,9 @@ class Edits:
         cur = base
         CUTS = ('R9 truncate', 'R11 skip', 'R6 abstract', 'R7 abstract stmt', 'R7e abstract expr')   # replaced regions: edits inside are moot
         big = [(s, e) for (s, e, t, k, nt) in self.items if (k == 'drop' and nt == 'cfg-false') or nt in CUTS]
+        r11_ends = {e for (s, e, t, k, nt) in self.items if nt == 'R11 skip'}   # an insertion right behind a skipped prefix belongs to the kept suffix
         for _, (s, e, t, kind, note) in its:
-            if note not in ('cfg-false',) + CUTS and any(bs <= s and e <= be and not (s == e == bs) for (bs, be) in big):
+            if note not in ('cfg-false',) + CUTS and any(bs <= s and e <= be and not (s == e == bs) and not (s == e == be and be in r11_ends) for (bs, be) in big):
                 continue   # edit lies inside a region removed by E2 / R9 / R11
             if note == 'cfg-false' and any(bs <= s and e <= be for (bs, be, bt, bk, bn) in self.items if bn in CUTS):
                 continue   # cfg region inside the truncated suffix / skipped prefix
